@@ -39,6 +39,7 @@ type Shared struct {
 	res      *Result
 	stop     bool
 	deadline time.Time
+	lockEdges map[string]lockEdge
 }
 
 type Options struct {
@@ -104,6 +105,7 @@ type AssertStat struct {
 
 type Result struct {
 	Harness       string                 `json:"harness"`
+	LockOrder     []string               `json:"lock_order,omitempty"`
 	Paths         int                    `json:"paths"`
 	PathsEnd      int                    `json:"paths_end"`
 	PathsAssume   int                    `json:"paths_assume"`
@@ -162,7 +164,7 @@ type Ctx struct {
 	nextErr       int
 	globals       map[*ssa.Global]*Object
 	locks         map[string]*lockState
-	lockOrder     []string
+	held          []heldLock
 	nested        map[string]*Object
 	fnsSeen       map[string]int
 	concreteVec   []uint64
